@@ -108,6 +108,14 @@ var c01Twins = [][]string{
 	{"{{ 'a b'|url_encode }}", "{{ 'a&b'|url_encode }}", "{{ 'a b'|nl2br }}", "{{ 'a\nb'|nl2br }}"},
 	{"{{ [1, 'a', null]|json_encode }}", "{{ {'k': [1, 2]}|json_encode }}", "{{ 'q\"'|json_encode }}"},
 	{"{{ 'tag <b>x</b>'|striptags }}", "{{ 'tag <i>y</i>'|striptags }}", "{{ '<b>x</b>'|length }}"},
+	// names that differ only in letter case, or share a prefix / a length (string tables, interning, case folding)
+	{"{% set seedQty = 'MIXED' %}{% set seedqty = 'lower' %}[{{ seedqty }}]", "{% set seedQty = 'MIXED' %}{% set seedqty = 'lower' %}[{{ seedQty }}]", "{% set SEEDQTY = 'UPPER' %}[{{ SEEDQTY }}{{ seedqty }}]"},
+	{"{% macro Row(x) %}<R{{ x }}>{% endmacro %}{% macro row(x) %}<r{{ x }}>{% endmacro %}{{ row(1) }}", "{% macro Row(x) %}<R{{ x }}>{% endmacro %}{% macro row(x) %}<r{{ x }}>{% endmacro %}{{ Row(1) }}", "{% macro ROW(x) %}<ROW{{ x }}>{% endmacro %}{{ ROW(1) }}"},
+	{"{{ {'Key': 'K', 'key': 'k'}.key }}", "{{ {'Key': 'K', 'key': 'k'}.Key }}", "{{ {'KEY': 'KK'}.KEY }}{{ {'KEY': 'KK'}.key }}"},
+	{"{{ 'Abc' }}{{ 'abc' }}", "{{ 'abc' }}{{ 'Abc' }}", "{{ 'ABC'|lower }}{{ 'abc'|upper }}", "{{ 'abc' == 'Abc' ? 'same' : 'differ' }}"},
+	{"{% set abcdefghij = 1 %}{% set abcdefghik = 2 %}{{ abcdefghij }}{{ abcdefghik }}", "{% set abcdefghik = 3 %}{{ abcdefghik }}{{ abcdefghij }}", "{% set abcdefghijabcdefghijabcdefghij1 = 'L1' %}{% set abcdefghijabcdefghijabcdefghij2 = 'L2' %}{{ abcdefghijabcdefghijabcdefghij1 }}{{ abcdefghijabcdefghijabcdefghij2 }}"},
+	{"{% if true %}T{% endif %}{% set True = 'var' %}{{ True }}", "{% set TRUE = 'VAR' %}{{ TRUE }}{{ true ? 1 : 0 }}", "{% set Null = 'n' %}{{ Null }}{{ null is null ? 'nn' : 'x' }}", "{% set If = 'i' %}{{ If }}"},
+	{"{% block Main %}M{% endblock %}{% block main %}m{% endblock %}", "{% block main %}m2{% endblock %}", "{% block MAIN %}M3{% endblock %}"},
 }
 
 func (p *c01) gen(seed uint64, idx int) *c01History {
@@ -124,7 +132,7 @@ func (p *c01) gen(seed uint64, idx int) *c01History {
 	h.nEng = r.Range(1, 3)
 	n := r.Range(8, 60)
 	entries := append([]string{}, h.ts.Entries...)
-	for g := 0; g < 4; g++ {
+	for g := 0; g < 5; g++ {
 		gi := r.Intn(len(c01Twins))
 		for mi, src := range c01Twins[gi] {
 			name := fmt.Sprintf("twin%d_%d", gi, mi)
